@@ -122,6 +122,12 @@ add("C16", "vp_graph",
     "Trusted: the reference functions; exact comparison on grid contents, n eps sum|x| otherwise. dasp_graph is built against the crates.io 0.11.0 dasp_* crates exactly as the repository resolves them.",
     "DESIGN.md §4 C16")
 
+add("C07", "vp_alloc",
+    "scenario catalogue driven by enumeration + proptest parameters, observed with a counting global allocator (thread-local, armed regions)",
+    "26 scenarios covering sample conversions and arithmetic, every Frame method, borrowed slice views and in-place ops, Bounded/Fixed ring buffers over array / &mut / Vec / Box<[T]> storage, rectifiers, RMS, envelope detectors, Floor/Linear/Sinc interpolators, window functions, every signal source and adaptor (incl. take / until_exhausted / interleaved samples / lift / by_ref), fork by_ref and by_rc branches, buffered, rate conversion with every interpolator and mul_hz, rms / detect_envelope adaptors, Window / Windower / Windowed, random adaptor-tree compositions, graphs of stock nodes and wrappers (Graph and StableGraph, cycles, nested GraphNode, alternating output nodes) after a warm-up process call, and the bus in lock-step (backlog and live bytes constant). State is constructed unarmed; 16..2000 operations (thorough: 2e5) run armed; allocs == reallocs == frees == 0 and the checksum equals the unarmed run's.",
+    "Trusted: the counting allocator (self-tested at start-up). An allocation in an operation outside the catalogue is invisible; the catalogue is listed in the evidence.",
+    "DESIGN.md §4 C07")
+
 PENDING_REASON = "check not yet built in this round (design in DESIGN.md §4); nothing is claimed for it until its check is registered"
 
 def main():
